@@ -30,7 +30,7 @@ CHECKS = [
     ),
     _check(
         "C09",
-        "Seeded search over creation/clone sequences (5-60 ops; display names from a small colliding pool incl. names that look like internal ones; all clone helpers; coordinate systems, transforms and rotations; quantities incl. copies and dimension overrides; symbolic wrappers; experimental vector symbols/functions that mint from the same counters; creation by keyword and in another thread; 12 % of the runs in a process started with SYMPY_USE_CACHE=no) interleaved with perturbations (forward counter jumps to digit boundaries, real bulk creation up to 9000, cache eviction, dropping objects + gc so addresses are reused, churn of short-lived sources, creation while the evaluate flag is off, catalogue imports, a failing documentation page). After every step: pairwise distinctness, unique generated names, every earlier object reads back its names/dimension/assumptions/scale factor (durability), clone contract against a reference model; at the end: independence under subs/diff/solve on a prime-weighted sum judged numerically, abs() of quantities, SI registry vs attributes, print_expression/code_str (bare, in lists, in indexed sums/products, inside wrappers, after doit/simplify rebuilt the expression, after the original was dropped) show display names and no generated name, LaTeX names stay put. Sampling, not proof.",
+        "21 systematic display-name ladders (per kind, stem and assumption set: 12 or 101 objects with one display name among objects displayed as stem+digits, clones, eviction, digit-boundary jump) and a seeded search over creation/clone sequences (5-60 ops; display names from a small colliding pool incl. names that look like internal ones; all clone helpers; coordinate systems, transforms and rotations; quantities incl. copies and dimension overrides; symbolic wrappers; experimental vector symbols/functions that mint from the same counters; creation by keyword and in another thread; 12 % of the runs in a process started with SYMPY_USE_CACHE=no) interleaved with perturbations (forward counter jumps to digit boundaries, real bulk creation up to 9000, cache eviction, dropping objects + gc so addresses are reused, churn of short-lived sources, creation while the evaluate flag is off, catalogue imports, a failing documentation page). After every step: pairwise distinctness, unique generated names, every earlier object reads back its names/dimension/assumptions/scale factor (durability), clone contract against a reference model; at the end: independence under subs/diff/solve on a prime-weighted sum judged numerically, abs() of quantities, SI registry vs attributes, print_expression/code_str (bare, in lists, in indexed sums/products, inside wrappers, after doit/simplify rebuilt the expression, after the original was dropped) show display names and no generated name, LaTeX names stay put. Sampling, not proof.",
         "Reference model (expected names/assumptions) is hand-written (about 60 lines); expected assumptions come from plain sympy.Symbol with the same kwargs. Quantities are valued by their scale factor (SymPy may relate quantities of one dimension). Trusted: SymPy subs/diff/solve on linear sums.",
         "deterministic simulation: seeded operation + perturbation sequences checked step by step against an abstract-identity reference model, ddmin-minimised replay files",
         "DESIGN.md section 4",
